@@ -167,18 +167,20 @@ Qed.
 Theorem rules_today :
   g_manifest_name = fname_str "META-INF/MANIFEST.MF" /\
   g_manifest_bytes = fname_str "Manifest-Version: 1.0" ++ [10] ++ fname_str "Main-Class: net.minecraft.client.Main" ++ [10] /\
-  g_signature_rule = PAnd (PStarts s_metainf) (POr (PEnds s_SF) (PEnds s_RSA)) /\
+  g_signature_rule = PAnd (PStarts s_metainf) (POr (POr (POr (PEnds s_SF) (PEnds s_RSA)) (PEnds s_DSA)) (PEnds s_EC)) /\
   g_library_rule = PAnd (PAnd (PEnds s_class) (PNot (PStarts s_minecraft))) (PContains cSLASH) /\
   s_metainf = fname_str "META-INF/" /\ s_SF = fname_str ".SF" /\ s_RSA = fname_str ".RSA" /\
+  s_DSA = fname_str ".DSA" /\ s_EC = fname_str ".EC" /\
   s_class = fname_str ".class" /\ s_minecraft = fname_str "net/minecraft/".
 Proof. repeat split; vm_compute; reflexivity. Qed.
 
 Theorem signature_rule_spec n :
   is_signature n = true <->
-  (exists r, n = s_metainf ++ r) /\ ((exists p, n = p ++ s_SF) \/ (exists p, n = p ++ s_RSA)).
+  (exists r, n = s_metainf ++ r) /\
+  ((exists p, n = p ++ s_SF) \/ (exists p, n = p ++ s_RSA) \/ (exists p, n = p ++ s_DSA) \/ (exists p, n = p ++ s_EC)).
 Proof.
   unfold is_signature. destruct rules_today as (_ & _ & -> & _). cbn [peval].
-  rewrite andb_true_iff, orb_true_iff, starts_with_app, !ends_with_app. tauto.
+  rewrite andb_true_iff, !orb_true_iff, starts_with_app, !ends_with_app. tauto.
 Qed.
 
 Theorem library_rule_spec n :
@@ -243,9 +245,14 @@ Definition rule_examples : Prop :=
   is_signature (fname_str "META-INF/sub/Y.SF") = true /\
   is_signature (fname_str "META-INF/.SF") = true /\
   is_signature (fname_str "META-INF/MANIFEST.MF.SF") = true /\
-  is_signature (fname_str "META-INF/X.DSA") = false /\
-  is_signature (fname_str "META-INF/X.EC") = false /\
+  is_signature (fname_str "META-INF/X.DSA") = true /\
+  is_signature (fname_str "META-INF/X.EC") = true /\
+  is_signature (fname_str "META-INF/sub/k.EC") = true /\
   is_signature (fname_str "META-INF/x.sf") = false /\
+  is_signature (fname_str "META-INF/x.dsa") = false /\
+  is_signature (fname_str "META-INF/X.DSA.txt") = false /\
+  is_signature (fname_str "META-INF/SIG-X") = false /\
+  is_signature (fname_str "X.DSA") = false /\
   is_signature (fname_str "META-INF/a.RSA.txt") = false /\
   is_signature (fname_str "meta-inf/Z.SF") = false /\
   is_signature (fname_str "X.SF") = false /\
